@@ -958,9 +958,10 @@ def ob_connection(dim, kind):
         elif kind == "hinged":
             simu.add_connection_hinged(joint)
             tied, free = tr, rot
-        else:      # hinge about z in 3-D: rz released
-            simu.add_connection_hinged(joint, ["rz"])
-            tied, free = tr + ["rx", "ry"], ["rz"]
+        else:      # 3-D hinge with the listed rotations released (kind 'hinged_rz', 'hinged_rx+ry', ...)
+            released = kind.split("_", 1)[1].split("+")
+            simu.add_connection_hinged(joint, list(released))
+            tied, free = tr + [r for r in rot if r not in released], list(released)
         U = np.asarray(simu.Solve()).reshape(mesh.Nn, -1)
     except Exception as ex:
         raise Refuted(f"{dim}-D beams, {kind} connection of the three nodes of a joint: {type(ex).__name__}: {ex}", cex=dict(dim=dim, kind=kind, joint_nodes=joint.tolist()),
@@ -986,7 +987,7 @@ def ob_connection(dim, kind):
         elif kind == "hinged":
             simu2.add_connection_hinged(pair)
         else:
-            simu2.add_connection_hinged(pair, ["rz"])
+            simu2.add_connection_hinged(pair, kind.split("_", 1)[1].split("+"))
     U2 = np.asarray(simu2.Solve()).reshape(mesh2.Nn, -1)
     e = float(np.abs(U - U2).max() / sc)
     if e > 1e-8:
@@ -1079,7 +1080,7 @@ def build(tier, seed):
         obs.append(Ob(f"C04.bordered.{tag}", ob_bordered, (dirichlet, lagr), "B", (f"{SOL}::__Solver_2",), bound="6-dof system, listed condition sets",
                       clause="system handed to the linear solver == [[A, aC'],[aC, 0]] [u;l] = [b; a v], one row per distinct constrained dof, values summed"))
     obs.append(Ob("C04.bordered.lemma", ob_bordered_lemma, (), "L", (), clause="bordered system => C u = v and free-space residual zero"))
-    for dim, kind in ((2, "fixed"), (2, "hinged"), (3, "fixed"), (3, "hinged"), (3, "hinged_rz")):
+    for dim, kind in ((2, "fixed"), (2, "hinged"), (3, "fixed"), (3, "hinged"), (3, "hinged_rz"), (3, "hinged_rx"), (3, "hinged_rx+ry"), (3, "hinged_ry+rz"), (3, "hinged_rx+rz"), (3, "hinged_rx+ry+rz")):
         obs.append(Ob(f"C04.connection.{dim}d.{kind}", ob_connection, (dim, kind), "X", ("EasyFEA/Simulations/_beam.py::Beam.add_connection", "EasyFEA/Simulations/_beam.py::Beam.add_connection_hinged", f"{SOL}::__Solver_2"),
                       bound="three beams meeting at one joint, one load", timeout=300,
                       clause="the connected unknowns take one value at all joint nodes, the unknowns the connection leaves free are not tied, three nodes at once == pairwise chaining"))
